@@ -45,6 +45,9 @@ class Prop:
     def extra(self, ctx: "Ctx") -> None:
         """Optional spec->code replay steps; report through ctx.add_replay / ctx.fail."""
 
+    def prepare(self, ctx: "Ctx") -> None:
+        """Optional step in the parent before the cases run (e.g. have TLC enumerate behaviours that the workers then replay)."""
+
     def fingerprint(self, case: Dict[str, Any], obs: Dict[str, Any]) -> str:
         o = {k: v for k, v in obs.items() if k != "id"}
         return hashlib.sha1(json.dumps(o, sort_keys=True).encode()).hexdigest()
@@ -271,6 +274,7 @@ def main(argv: Optional[List[str]] = None) -> int:
             return ctx.finish()
         if not a.no_mc:
             ctx.run_mc()
+        prop.prepare(ctx)
         ctx.run_cases()
         prop.extra(ctx)
         return ctx.finish()
